@@ -4262,3 +4262,724 @@ Proof.
   - exact Hst.
   - intros n. rewrite Hv, Hlog, (benign_inval s l _ n Hl). apply Iinval.
 Qed.
+
+(** ** steps that keep the structure: stamps, values, the heap, handlers, the log *)
+Definition vars_in (s : state) (s0 : state) : Prop :=
+  forall v, v ∈ setDuring s \/ v ∈ setRemoved s -> exists e, nkind (nd s0 v) = KVar e.
+
+Record soft (s s' : state) : Prop := {
+  so_struct : same_struct s s';
+  so_stabNum : stabNum s' = stabNum s;
+  so_status : status s' = status s;
+  so_log : exists l, log s' = l ++ log s /\ Forall (ev_benign s) l;
+  so_stamps : stamps_ok s -> stamps_ok s';
+  so_vars : vars_in s s -> vars_in s' s;
+  so_heap : heap_ok s -> hreg_ok s -> heap_ok s'
+}.
+
+Lemma ev_benign_struct s s' e : same_struct s s' -> ev_benign s' e -> ev_benign s e.
+Proof.
+  intros HS. destruct e; simpl; auto; intros H;
+    match goal with |- inGraph (nd s ?n) = true => destruct (ss_node s s' HS n) as (_&_&_&_&_&_&_&_&_&_&<-) end; exact H.
+Qed.
+
+Lemma soft_refl s : soft s s.
+Proof.
+  split; auto; [apply same_struct_refl|]. exists []. split; [reflexivity|constructor].
+Qed.
+
+Lemma soft_trans s1 s2 s3 : soft s1 s2 -> soft s2 s3 -> soft s1 s3.
+Proof.
+  intros A B. split.
+  - eapply same_struct_trans; [apply A|apply B].
+  - rewrite (so_stabNum _ _ B). apply A.
+  - rewrite (so_status _ _ B). apply A.
+  - destruct (so_log _ _ A) as (l1 & E1 & F1), (so_log _ _ B) as (l2 & E2 & F2).
+    exists (l2 ++ l1). rewrite E2, E1, app_assoc. split; [reflexivity|]. apply Forall_app. split; [|exact F1].
+    eapply List.Forall_impl; [|exact F2]. intros e. apply ev_benign_struct, A.
+  - intros H. apply B, A, H.
+  - intros H v Hv.
+    assert (H2 : vars_in s2 s2).
+    { intros w Hw. destruct (so_vars _ _ A H w Hw) as [e He]. exists e.
+      destruct (ss_node _ _ (so_struct _ _ A) w) as (-> & _). exact He. }
+    destruct (so_vars _ _ B H2 v Hv) as [e He]. exists e.
+    destruct (ss_node _ _ (so_struct _ _ A) v) as (<- & _). exact He.
+  - intros H1 H2. apply B; [apply A; assumption|]. apply (hreg_ok_struct s1 s2 (so_struct _ _ A) H2).
+Qed.
+
+Lemma PInv_of_soft s s' : PInv s -> soft s s' -> PInv s'.
+Proof.
+  intros P S. destruct (so_log _ _ S) as (l & El & Fl).
+  apply (PInv_soft s s' l P (so_struct _ _ S) El Fl).
+  - apply S; [apply (t_heap _ _ _ (p_t s P))|]. apply Inv_hreg; apply (p_t s P).
+  - apply S, P.
+  - apply S.
+  - apply (so_vars _ _ S). intros v Hv. apply (pq_vars s (p_pq s P) v Hv).
+Qed.
+
+Definition stamp_bounded (k : Z) (x : node) : Prop :=
+  0 <= recomputedAt x <= k /\ 0 <= changedAt x <= k /\ 0 <= setAt x <= k.
+
+Lemma soft_upd s n f :
+  (forall x, struct_eq (f x) x) ->
+  (forall x, 1 <= stabNum s -> stamp_bounded (stabNum s) x -> stamp_bounded (stabNum s) (f x)) ->
+  soft s (upd s n f).
+Proof.
+  intros Hf Hb. split; try reflexivity; auto.
+  - apply same_struct_upd, Hf.
+  - exists []. split; [reflexivity|constructor].
+  - intros [S1 S2]. split; [exact S1|]. intros m. change (stabNum (upd s n f)) with (stabNum s).
+    destruct (decide (has s n)) as [Hn|Hn]; [|rewrite upd_missing by exact Hn; apply S2].
+    rewrite nd_upd by exact Hn. destruct (decide (m = n)) as [->|]; [|apply S2].
+    apply (Hb (nd s n) S1 (S2 n)).
+  - intros [H1 H2] _. split; [exact H1|]. intros m Hm.
+    destruct (ss_node _ _ (same_struct_upd s n f Hf) m) as (_&_&_&->&_&_&_&_&_&_&->). apply H2, Hm.
+Qed.
+
+Lemma same_struct_nodes s s' :
+  nodes s' = nodes s -> next s' = next s -> binds s' = binds s -> reg s' = reg s -> obs s' = obs s ->
+  adj s' = adj s -> invq s' = invq s -> numNodes s' = numNodes s -> maxHeight s' = maxHeight s ->
+  same_struct s s'.
+Proof.
+  intros Hn. split; auto.
+  - intros n. unfold has. rewrite Hn. reflexivity.
+  - intros n. unfold nd. rewrite Hn. apply struct_eq_refl.
+Qed.
+
+Lemma soft_emit s e : ev_benign s e -> soft s (emit e s).
+Proof.
+  intros He. split; try reflexivity.
+  - apply same_struct_nodes; reflexivity.
+  - exists [e]. split; [reflexivity|]. constructor; [exact He|constructor].
+  - apply stamps_ok_ext; reflexivity.
+  - intros H; exact H.
+  - intros H _; exact H.
+Qed.
+
+Lemma soft_handlers s l : soft s (s <| handlers := l |>).
+Proof.
+  split; try reflexivity.
+  - apply same_struct_nodes; reflexivity.
+  - exists []. split; [reflexivity|constructor].
+  - apply stamps_ok_ext; reflexivity.
+  - intros H; exact H.
+  - intros H _; exact H.
+Qed.
+
+Lemma soft_only_heap s s' : only_heap s s' -> (heap_ok s -> hreg_ok s -> heap_ok s') -> soft s s'.
+Proof.
+  intros F Hk. split; auto.
+  - apply same_struct_only_heap, F.
+  - apply (oh_stabNum _ _ F).
+  - apply (oh_status _ _ F).
+  - exists []. split; [apply (oh_log _ _ F)|constructor].
+  - apply stamps_ok_ext; [apply (oh_stabNum _ _ F)| | |]; intros m; rewrite (oh_nd _ _ F); reflexivity.
+  - intros H v. rewrite (oh_setDuring _ _ F), (oh_setRemoved _ _ F). apply H.
+Qed.
+
+(* queueing succeeded: the node has a height, hence it is registered *)
+Lemma soft_heapAddIfNotPresent s n s' : heapAddIfNotPresent s n = Ok s' -> soft s s'.
+Proof.
+  intros H. apply soft_only_heap; [apply (only_heap_heapAddIfNotPresent s n s' H)|].
+  intros Hk Hr. unfold heapAddIfNotPresent in H. destruct (inHeap s n) eqn:Em; [injection H as <-; exact Hk|].
+  assert (Hh : 0 <= height (nd s n)).
+  { destruct (Z.ltb_spec (height (nd s n)) 0) as [Hneg|]; [|assumption].
+    rewrite (heapAdd_negative s n Hneg) in H. discriminate. }
+  destruct (Hr n ltac:(unfold unset; lia)) as [Hg _].
+  apply (heap_ok_heapAdd s n s' Hk Em Hg Hh H).
+Qed.
+
+Lemma soft_heapAdd s n s' : inHeap s n = false -> heapAdd s n = Ok s' -> soft s s'.
+Proof.
+  intros Em H. apply (soft_heapAddIfNotPresent s n s'). unfold heapAddIfNotPresent. rewrite Em. exact H.
+Qed.
+
+Lemma isVar_kind s v : isVar s v = true -> exists e, nkind (nd s v) = KVar e.
+Proof. intros H. apply isVar_true in H as [_ H]. exact H. Qed.
+
+Lemma elem_of_insert_sorted' x n l : x ∈ insert_sorted n l -> x = n \/ x ∈ l.
+Proof. apply elem_of_insert_sorted. Qed.
+
+Lemma varSet_soft s v x s' :
+  status s = 1 -> isVar s v = true -> varSet s v x = Ok s' -> soft s s'.
+Proof.
+  intros Hst Hv H. unfold varSet in H. destruct (_ && _ && _); [injection H as <-; apply soft_refl|].
+  rewrite Hst in H. simpl in H. injection H as <-.
+  eapply soft_trans; [apply (soft_upd s v (set pending (fun _ => Some x)))|].
+  - intros y. repeat split.
+  - intros y _ Hb. exact Hb.
+  - set (s1 := upd s v (set pending (fun _ => Some x))).
+    split; try reflexivity.
+    + apply same_struct_nodes; reflexivity.
+    + exists []. split; [reflexivity|constructor].
+    + apply stamps_ok_ext; reflexivity.
+    + intros H w. cbn. intros [Hw|Hw]; [|apply H; right; exact Hw].
+      apply elem_of_insert_sorted' in Hw as [->|Hw]; [|apply H; left; exact Hw].
+      destruct (isVar_kind s v Hv) as [e He]. exists e. unfold s1. rewrite nd_upd_proj by reflexivity. exact He.
+    + intros H _; exact H.
+Qed.
+
+Lemma varUpdate_soft s v d s' :
+  status s = 1 -> isVar s v = true -> varUpdate s v d = Ok s' -> soft s s'.
+Proof. unfold varUpdate. apply varSet_soft. Qed.
+
+Lemma isVar_struct s s' v : same_struct s s' -> isVar s v = true -> isVar s' v = true.
+Proof.
+  intros HS H. apply isVar_true in H as [Hh [e He]]. unfold isVar.
+  apply (ss_has s s' HS) in Hh. rewrite (has_lookup s' v Hh).
+  destruct (ss_node s s' HS v) as (-> & _). rewrite He. reflexivity.
+Qed.
+
+Lemma plan_ok_struct s s' p : same_struct s s' -> plan_ok s p = true -> plan_ok s' p = true.
+Proof.
+  intros HS. unfold plan_ok. rewrite !forallb_forall. intros H x Hx. specialize (H x Hx).
+  destruct x as [[n w] a]. destruct a; auto; apply (isVar_struct s s' _ HS H).
+Qed.
+
+Definition acts_ok (s : state) (acts : list action) : Prop :=
+  forall a, a ∈ acts -> match a with ASet v _ | AUpdate v _ => isVar s v = true | AFail _ => True end.
+
+Lemma acts_ok_of_plan s p n w : plan_ok s p = true -> acts_ok s (actions_of p n w).
+Proof.
+  intros H a Ha. unfold actions_of in Ha. apply elem_of_list_omap in Ha as ([[m w'] a'] & Hin & Hsome).
+  unfold plan_ok in H. rewrite forallb_forall in H. apply elem_of_list_In in Hin. specialize (H _ Hin). simpl in H.
+  destruct ((m =? n)%nat && which_eqb w w'); [|discriminate]. injection Hsome as <-.
+  destruct a'; [exact I|exact H|exact H].
+Qed.
+
+Lemma applyActions_soft acts : forall s s' f0 f,
+  status s = 1 -> acts_ok s acts ->
+  rfold (fun '(s, f) a =>
+           match f with
+           | Some _ => Ok (s, f)
+           | None =>
+             match a with
+             | AFail k => Ok (s, Some k)
+             | ASet v x => s <-! varSet s v x; Ok (s, None)
+             | AUpdate v d => s <-! varUpdate s v d; Ok (s, None)
+             end
+           end) acts (s, f0) = Ok (s', f) -> soft s s'.
+Proof.
+  induction acts as [|a acts IH]; intros s s' f0 f Hst Hok H; simpl in H.
+  - injection H as <- _. apply soft_refl.
+  - apply rbind_ok in H as ([s1 f1] & H1 & H).
+    assert (S1 : soft s s1).
+    { destruct f0; [injection H1 as <- _; apply soft_refl|]. destruct a as [k|v x|v d].
+      - injection H1 as <- _. apply soft_refl.
+      - apply rbind_ok in H1 as (s2 & H2 & [= <- _]). apply (varSet_soft s v x s2 Hst); [|exact H2].
+        apply (Hok (ASet v x)). left.
+      - apply rbind_ok in H1 as (s2 & H2 & [= <- _]). apply (varUpdate_soft s v d s2 Hst); [|exact H2].
+        apply (Hok (AUpdate v d)). left. }
+    eapply soft_trans; [exact S1|]. apply (IH s1 s' f1 f); [rewrite (so_status _ _ S1); exact Hst| |exact H].
+    intros a' Ha'. specialize (Hok a' ltac:(right; exact Ha')).
+    destruct a'; auto; apply (isVar_struct s s1 _ (so_struct _ _ S1) Hok).
+Qed.
+
+Lemma invoke_soft p s n w s' e :
+  status s = 1 -> plan_ok s p = true -> invoke p s n w = Ok (s', e) -> soft s s'.
+Proof.
+  intros Hst Hp H. unfold invoke in H. apply rbind_ok in H as ([s1 f] & H1 & H).
+  assert (S1 : soft s s1).
+  { unfold applyActions in H1. apply (applyActions_soft (actions_of p n w) s s1 None f Hst); [|exact H1].
+    apply acts_ok_of_plan, Hp. }
+  destruct f as [[|]|]; injection H as <- _; try exact S1;
+    (eapply soft_trans; [exact S1|apply soft_emit; exact I]).
+Qed.
+
+(** ** recomputing one node *)
+Definition rejected_err (e : option err) : Prop := e = Some ECycle \/ e = Some EHeightLimit.
+
+(** what the pass needs from the stabilization of a bind's lhs-change node *)
+Definition bind_spec (Q : state -> Prop) : Prop := forall fuel p s b s' e,
+  Q s -> PInv s -> plan_ok s p = true -> nkind (nd s b) = KBindLhs b -> inGraph (nd s b) = true ->
+  bindLhsStabilize fuel p s b = Ok (s', e) ->
+  rejected_err e \/ (PInv s' /\ plan_ok s' p = true /\ stabNum s' = stabNum s /\ Q s').
+
+Lemma soft_value s n v : soft s (upd s n (set value (fun _ => v))).
+Proof. apply soft_upd; intros x; [repeat split|auto]. Qed.
+
+Section pass.
+  Context (Q : state -> Prop) (HQ : forall s s', same_struct s s' -> Q s -> Q s') (HB : bind_spec Q).
+
+  Lemma stabilizeNode_spec fuel p s n s' e :
+    Q s -> PInv s -> plan_ok s p = true -> inGraph (nd s n) = true ->
+    stabilizeNode fuel p s n = Ok (s', e) ->
+    rejected_err e \/ (PInv s' /\ plan_ok s' p = true /\ stabNum s' = stabNum s /\ Q s').
+  Proof.
+    intros Hq P Hp Hg H. unfold stabilizeNode in H.
+    assert (Hst : status s = 1) by apply (pq_status s (p_pq s P)).
+    assert (Fin : forall s1, soft s s1 -> rejected_err e \/ (PInv s1 /\ plan_ok s1 p = true /\ stabNum s1 = stabNum s /\ Q s1)).
+    { intros s1 S. right. split; [apply (PInv_of_soft s s1 P S)|].
+      split; [apply (plan_ok_struct s s1 p (so_struct _ _ S) Hp)|]. split; [apply S|apply (HQ s s1 (so_struct _ _ S) Hq)]. }
+    assert (Hinv : forall s1 e1 r (f : Z -> list Z) args,
+              invoke p s n WFn = Ok (s1, e1) ->
+              match e1 with
+              | Some e0 => fail s1 e0
+              | None => ok (emit (EvInvoked n args r) (upd s1 n (set value (fun _ => r))))
+              end = Ok (s', e) -> rejected_err e \/ (PInv s' /\ plan_ok s' p = true /\ stabNum s' = stabNum s /\ Q s')).
+    { intros s1 e1 r _ args H1 H2. pose proof (invoke_soft p s n WFn s1 e1 Hst Hp H1) as S1.
+      destruct e1 as [e0|].
+      - apply fail_inv in H2 as [-> ->]. apply Fin, S1.
+      - apply ok_inv in H2 as [-> ->]. apply Fin.
+        eapply soft_trans; [exact S1|]. eapply soft_trans; [apply soft_value|].
+        apply soft_emit. simpl. rewrite nd_upd_proj by reflexivity.
+        destruct (ss_node _ _ (so_struct _ _ S1) n) as (_&_&_&_&_&_&_&_&_&_&->). exact Hg. }
+    destruct (nkind (nd s n)) as [eqv| |f|f|f|c| |b|b] eqn:Ek.
+    - destruct (pending (nd s n)) as [v|].
+      + destruct (recomputedAt (nd s n) =? stabNum s); apply ok_inv in H as [-> ->]; apply Fin; [apply soft_refl|].
+        apply soft_upd; intros x; [repeat split|auto].
+      + apply ok_inv in H as [-> ->]. apply Fin, soft_refl.
+    - apply ok_inv in H as [-> ->]. apply Fin, soft_refl.
+    - apply rbind_ok in H as ([s1 e1] & H1 & H2). eapply (Hinv s1 e1 _ (fun _ => []) _ H1 H2).
+    - apply rbind_ok in H as ([s1 e1] & H1 & H2). eapply (Hinv s1 e1 _ (fun _ => []) _ H1 H2).
+    - apply rbind_ok in H as ([s1 e1] & H1 & H2). eapply (Hinv s1 e1 _ (fun _ => []) _ H1 H2).
+    - apply ok_inv in H as [-> ->]. apply Fin, soft_value.
+    - apply ok_inv in H as [-> ->]. apply Fin, soft_refl.
+    - assert (b = n) as ->.
+      { pose proof (p_kinds s P n (has_inGraph s n Hg)) as K. rewrite Ek in K. symmetry. apply K. }
+      apply (HB fuel p s n s' e Hq P Hp Ek Hg H).
+    - apply ok_inv in H as [-> ->]. apply Fin, soft_value.
+  Qed.
+
+  Lemma soft_errorHandlers s n : soft s (errorHandlers s n).
+  Proof.
+    unfold errorHandlers. destruct (nkind (nd s n)) as [| | | | | | |b|b];
+      try (apply soft_emit; exact I).
+    apply (soft_trans _ (emit (EvErrH (b_main (bd s b))) s)); apply soft_emit; exact I.
+  Qed.
+
+  Lemma recomputeFailed_soft s n prev s' :
+    0 <= prev <= stabNum s -> recomputeFailed s n prev = Ok s' -> soft s s'.
+  Proof.
+    intros Hprev H. unfold recomputeFailed in H.
+    eapply soft_trans; [|apply (soft_heapAddIfNotPresent _ _ _ H)].
+    apply soft_upd; intros x; [repeat split|]. intros _ (A & B & C). repeat split; cbn; try lia; apply B || apply C.
+  Qed.
+
+  (* the children loop: hold one child back, queue the rest *)
+  Lemma childrenLoop_spec s n s' held :
+    PInv s -> childrenLoop s n = Ok (s', held) ->
+    soft s s' /\ (forall h, held = Some h -> inHeap s' h = false /\ inGraph (nd s' h) = true).
+  Proof.
+    intros P H. unfold childrenLoop in H.
+    pose (I := fun (rest : list nid) (st : state * option nid) =>
+      soft s st.1 /\ (forall c, c ∈ rest -> inGraph (nd s c) = true) /\
+      (forall h, st.2 = Some h -> inHeap st.1 h = false /\ inGraph (nd s h) = true)).
+    assert (HI : I [] (s', held)).
+    { eapply (rfold_inv I); [| |exact H].
+      - split; [apply soft_refl|]. split; [|discriminate].
+        intros c Hc. apply (child_registered s c n (t_edges _ _ _ (p_t s P)) (t_zero _ _ _ (p_t s P)) Hc).
+      - clear H. intros c rest [st h0] [st1 h1] (S & Hreg & Hh) Hstep. cbn [fst snd] in *.
+        assert (Hreg' : forall c', c' ∈ rest -> inGraph (nd s c') = true) by (intros c' Hc'; apply Hreg; right; exact Hc').
+        assert (Same : I rest (st, h0)) by (split; [exact S|split; [exact Hreg'|exact Hh]]).
+        revert Hstep. destruct (bool_decide_reflect (h0 = Some c)) as [|Hneq]; [intros [= <- <-]; exact Same|].
+        destruct (shouldRecomputeChild st c) eqn:Esh; simpl; [|intros [= <- <-]; exact Same]. intros Hstep.
+        assert (Hcm : inHeap st c = false).
+        { unfold shouldRecomputeChild in Esh. destruct (inHeap st c); [discriminate|reflexivity]. }
+        apply rbind_ok in Hstep as (st2 & H2 & [= <- <-]).
+        destruct h0 as [h|].
+        + destruct (Hh h eq_refl) as [Hhm Hhg].
+          pose proof (soft_heapAdd st h st2 Hhm H2) as S2.
+          split; [eapply soft_trans; eauto|]. split; [exact Hreg'|].
+          intros h' [= <-]. split; [|apply Hreg; left].
+          assert (Pst : PInv st) by (apply (PInv_of_soft s st P S)).
+          destruct (t_heap _ _ _ (p_t st Pst)) as [Hi _].
+          assert (Hh0 : 0 <= height (nd st h)).
+          { destruct (Z.ltb_spec (height (nd st h)) 0) as [Hneg|]; [|assumption].
+            rewrite (heapAdd_negative st h Hneg) in H2. discriminate. }
+          destruct (heapAdd_spec st h st2 Hi Hhm Hh0 H2) as (_ & I2 & Pm & _).
+          apply (inHeap_false_iff st2 c I2). rewrite Pm. rewrite not_elem_of_cons. split.
+          * intros ->. congruence.
+          * apply (inHeap_false_iff st c Hi), Hcm.
+        + injection H2 as <-. split; [exact S|]. split; [exact Hreg'|].
+          intros h' [= <-]. split; [exact Hcm|apply Hreg; left]. }
+    destruct HI as (S & _ & Hh). cbn [fst snd] in *. split; [exact S|].
+    intros h Eh. destruct (Hh h Eh) as [A B]. split; [exact A|].
+    destruct (ss_node _ _ (so_struct _ _ S) h) as (_&_&_&_&_&_&_&_&_&_&->). exact B.
+  Qed.
+
+  Lemma soft_insert_handlers s l : soft s (foldl (fun s o => insert_handler o s) s l).
+  Proof.
+    revert s. induction l as [|o l IH]; intros s; [apply soft_refl|]. simpl.
+    eapply soft_trans; [|apply IH]. apply soft_handlers.
+  Qed.
+
+  Definition pass_ok (p : plan) (s0 s : state) : Prop :=
+    PInv s /\ plan_ok s p = true /\ stabNum s = stabNum s0 /\ Q s.
+
+  Lemma pass_ok_soft p s0 s s' : pass_ok p s0 s -> soft s s' -> pass_ok p s0 s'.
+  Proof.
+    intros (P & Hp & Hn & Hq) S. split; [apply (PInv_of_soft s s' P S)|].
+    split; [apply (plan_ok_struct s s' p (so_struct _ _ S) Hp)|].
+    split; [rewrite (so_stabNum _ _ S); exact Hn|apply (HQ s s' (so_struct _ _ S) Hq)].
+  Qed.
+
+  Lemma recomputeNodeSerial_spec fuel p s n s' e imm :
+    Q s -> PInv s -> plan_ok s p = true -> inGraph (nd s n) = true ->
+    recomputeNodeSerial fuel p s n = Ok (s', e, imm) ->
+    rejected_err e \/ (pass_ok p s s' /\ forall c, imm = Some c -> inGraph (nd s' c) = true).
+  Proof.
+    intros Hq P Hp Hg H. unfold recomputeNodeSerial in H.
+    assert (Hst : status s = 1) by apply (pq_status s (p_pq s P)).
+    set (prev := recomputedAt (nd s n)) in *.
+    assert (Hprev : 0 <= prev <= stabNum s) by apply (st_le s (p_stamps s P) n).
+    set (s1 := upd s n (set recomputedAt (fun _ => stabNum s))) in *.
+    assert (S1 : soft s s1).
+    { apply soft_upd; intros x; [repeat split|]. intros Hk (A & B & C). repeat split; cbn; try lia; apply B || apply C. }
+    assert (K0 : pass_ok p s s) by (split; [exact P|split; [exact Hp|split; [reflexivity|exact Hq]]]).
+    assert (Hreg : forall st, soft s st -> inGraph (nd st n) = true).
+    { intros st S. destruct (ss_node _ _ (so_struct _ _ S) n) as (_&_&_&_&_&_&_&_&_&_&->). exact Hg. }
+    apply rbind_ok in H as ([[s2 e2] cut] & H2 & H).
+    (* the cutoff phase: a soft step, never a rejection *)
+    assert (C2 : soft s s2 /\ ~ rejected_err e2).
+    { destruct (nkind (nd s n)) as [| | | | |c| | |] eqn:Ek; try (injection H2 as <- <- <-; split; [exact S1|intros [?|?]; discriminate]).
+      apply rbind_ok in H2 as ([s3 e3] & H3 & H2).
+      assert (Hst1 : status s1 = 1) by (rewrite (so_status _ _ S1); exact Hst).
+      pose proof (invoke_soft p s1 n WCut s3 e3 Hst1 (plan_ok_struct s s1 p (so_struct _ _ S1) Hp) H3) as S3.
+      assert (He3 : ~ rejected_err e3).
+      { unfold invoke in H3. apply rbind_ok in H3 as ([s4 f] & _ & H3).
+        destruct f as [[|]|]; injection H3 as _ <-; intros [?|?]; discriminate. }
+      destruct e3 as [e0|]; injection H2 as <- <- <-.
+      - split; [eapply soft_trans; eauto|exact He3].
+      - split; [|intros [?|?]; discriminate]. eapply soft_trans; [exact S1|]. eapply soft_trans; [exact S3|].
+        apply soft_emit. simpl. apply Hreg. eapply soft_trans; eauto. }
+    destruct C2 as [S2 He2].
+    assert (Hprev2 : forall st, soft s st -> 0 <= prev <= stabNum st) by (intros st S; rewrite (so_stabNum _ _ S); exact Hprev).
+    (* failing: restore the stamp, queue again, run the error handlers *)
+    assert (Fail : forall st e0 st', pass_ok p s st -> e0 <> None ->
+               (s0 <-! recomputeFailed st n prev; Ok (errorHandlers s0 n, e0, @None nid)) = Ok (st', e, imm) ->
+               pass_ok p s st' /\ forall c, imm = Some c -> inGraph (nd st' c) = true).
+    { intros st e0 st' K Hne HF. apply rbind_ok in HF as (s0 & H0 & [= <- _ <-]).
+      destruct K as (K1 & K2 & K3 & K4).
+      split; [|discriminate]. apply (pass_ok_soft p s st); [split; auto|].
+      eapply soft_trans; [apply (recomputeFailed_soft st n prev s0); [rewrite K3; exact Hprev|exact H0]|apply soft_errorHandlers]. }
+    destruct e2 as [e0|].
+    { destruct e0; try (right; refine (Fail s2 _ s' (pass_ok_soft p s s s2 K0 S2) _ H); discriminate);
+        try (exfalso; apply He2; unfold rejected_err; auto; fail).
+      cbn in H. injection H as <- <- <-. right. split; [apply (pass_ok_soft p s s s2 K0 S2)|discriminate]. }
+    destruct cut.
+    { injection H as <- <- <-. right. split; [apply (pass_ok_soft p s s s2 K0 S2)|discriminate]. }
+    apply rbind_ok in H as ([s3 e3] & H3 & H).
+    destruct (pass_ok_soft p s s s2 K0 S2) as (P2 & Hp2 & Hn2 & Hq2).
+    destruct (stabilizeNode_spec fuel p s2 n s3 e3 Hq2 P2 Hp2 (Hreg s2 S2) H3) as [Hrej|(P3 & Hp3 & Hn3 & Hq3)].
+    { destruct Hrej as [-> | ->]; apply rbind_ok in H as (s0 & _ & [= _ <- _]); left; unfold rejected_err; auto. }
+    assert (K3 : pass_ok p s s3) by (split; [exact P3|split; [exact Hp3|split; [congruence|exact Hq3]]]).
+    destruct e3 as [e0|].
+    { destruct e0; try (right; refine (Fail s3 _ s' K3 _ H); discriminate).
+      cbn in H. injection H as <- <- <-. right. split; [exact K3|discriminate]. }
+    (* success: stamp, handlers, children *)
+    set (s4 := insert_handler n (upd s3 n (set changedAt (fun _ => stabNum s3)))) in *.
+    assert (S4 : soft s3 s4).
+    { eapply soft_trans; [|apply soft_handlers].
+      apply soft_upd; intros x; [repeat split|]. intros Hk (A & B & C). repeat split; cbn; try lia; apply A || apply C. }
+    apply rbind_ok in H as ([s5 held] & H5 & H).
+    destruct (childrenLoop_spec s4 n s5 held (PInv_of_soft s3 s4 P3 S4) H5) as [S5 Hheld].
+    apply rbind_ok in H as ([s6 imm'] & H6 & H). injection H as <- <- <-.
+    assert (S6 : soft s5 s6 /\ forall c, imm' = Some c -> inGraph (nd s6 c) = true).
+    { destruct held as [h|]; [|injection H6 as <- <-; split; [apply soft_refl|discriminate]].
+      destruct (Hheld h eq_refl) as [Hm Hgh].
+      destruct (canRecomputeImmediately s5 n h).
+      - injection H6 as <- <-. split; [apply soft_refl|]. intros c [= <-]. exact Hgh.
+      - apply rbind_ok in H6 as (s7 & H7 & [= <- <-]). split; [apply (soft_heapAdd s5 h s7 Hm H7)|discriminate]. }
+    destruct S6 as [S6 Himm]. right.
+    assert (S36 : soft s3 (foldl (fun s o => insert_handler o s) s6 (observers (nd s6 n)))).
+    { eapply soft_trans; [exact S4|]. eapply soft_trans; [exact S5|]. eapply soft_trans; [exact S6|apply soft_insert_handlers]. }
+    split; [apply (pass_ok_soft p s s3 _ K3 S36)|].
+    intros c Hc. specialize (Himm c Hc).
+    destruct (ss_node _ _ (so_struct _ _ (soft_insert_handlers s6 (observers (nd s6 n)))) c) as (_&_&_&_&_&_&_&_&_&_&->).
+    exact Himm.
+  Qed.
+
+  Lemma recomputeChain_spec fuel : forall p s0 s n s' e at_,
+    pass_ok p s0 s -> inGraph (nd s n) = true ->
+    recomputeChain fuel p s n = Ok (s', e, at_) ->
+    rejected_err e \/ pass_ok p s0 s'.
+  Proof.
+    induction fuel as [|fuel IH]; intros p s0 s n s' e at_ (P & Hp & Hn & Hq) Hg H; [discriminate|].
+    simpl in H. apply rbind_ok in H as ([[s1 e1] imm] & H1 & H).
+    destruct (recomputeNodeSerial_spec fuel p s n s1 e1 imm Hq P Hp Hg H1) as [Hrej|[(P1 & Hp1 & Hn1 & Hq1) Himm]].
+    { destruct Hrej as [-> | ->]; injection H as <- <- <-; left; unfold rejected_err; auto. }
+    assert (K1 : pass_ok p s0 s1) by (split; [exact P1|split; [exact Hp1|split; [congruence|exact Hq1]]]).
+    destruct e1 as [e0|]; [injection H as <- <- <-; right; exact K1|].
+    destruct imm as [c|]; [|injection H as <- <- <-; right; exact K1].
+    apply (IH p s0 s1 c s' e at_ K1 (Himm c eq_refl) H).
+  Qed.
+End pass.
+
+(** ** the end of the pass *)
+Record soft2 (s s' : state) : Prop := {
+  s2_struct : same_struct s s';
+  s2_log : exists l, log s' = l ++ log s /\ Forall (ev_benign s) l;
+  s2_stamps : stamps_ok s -> stamps_ok s';
+  s2_heap : heap_ok s -> hreg_ok s -> heap_ok s'
+}.
+
+Lemma soft_soft2 s s' : soft s s' -> soft2 s s'.
+Proof. intros []. split; assumption. Qed.
+
+Lemma soft2_refl s : soft2 s s.
+Proof. apply soft_soft2, soft_refl. Qed.
+
+Lemma soft2_trans s1 s2 s3 : soft2 s1 s2 -> soft2 s2 s3 -> soft2 s1 s3.
+Proof.
+  intros A B. split.
+  - eapply same_struct_trans; [apply A|apply B].
+  - destruct (s2_log _ _ A) as (l1 & E1 & F1), (s2_log _ _ B) as (l2 & E2 & F2).
+    exists (l2 ++ l1). rewrite E2, E1, app_assoc. split; [reflexivity|]. apply Forall_app. split; [|exact F1].
+    eapply List.Forall_impl; [|exact F2]. intros e. apply ev_benign_struct, A.
+  - intros H. apply B, A, H.
+  - intros H1 H2. apply B; [apply A; assumption|]. apply (hreg_ok_struct s1 s2 (s2_struct _ _ A) H2).
+Qed.
+
+(* changes of the pass bookkeeping only *)
+Lemma soft2_book s s' :
+  nodes s' = nodes s -> next s' = next s -> binds s' = binds s -> reg s' = reg s -> obs s' = obs s ->
+  heap s' = heap s -> adj s' = adj s -> invq s' = invq s -> numNodes s' = numNodes s ->
+  maxHeight s' = maxHeight s -> log s' = log s -> stabNum s <= stabNum s' ->
+  soft2 s s'.
+Proof.
+  intros Hn Hnx Hb Hr Ho Hw Ha Hq Hnn Hm Hl Hs.
+  assert (Hnd : forall m, nd s' m = nd s m) by (intros m; unfold nd; rewrite Hn; reflexivity).
+  split.
+  - apply same_struct_nodes; assumption.
+  - exists []. split; [exact Hl|constructor].
+  - intros [S1 S2]. split; [lia|]. intros m. rewrite Hnd. destruct (S2 m) as (?&?&?). repeat split; lia.
+  - intros [H1 H2] _. unfold heap_ok. rewrite Hw. split; [exact H1|]. intros m. rewrite Hnd. apply H2.
+Qed.
+
+Lemma soft2_var_step s s' : var_step s s' -> (heap_ok s -> hreg_ok s -> heap_ok s') -> soft2 s s'.
+Proof.
+  intros V Hk. split; [apply V| |apply (stamps_ok_var s s' V)|exact Hk].
+  exists []. split; [apply V|constructor].
+Qed.
+
+Lemma runHandlers_soft2 l : forall s,
+  soft2 s (foldl (fun s k => match obs s !! k with
+                             | Some n => emit (EvObsUpd k (valueOf s n)) s
+                             | None => emit (EvUpd k) s
+                             end) s l).
+Proof.
+  induction l as [|k l IH]; intros s; [apply soft2_refl|]. simpl.
+  eapply soft2_trans; [|apply IH]. destruct (obs s !! k); apply soft_soft2, soft_emit; exact I.
+Qed.
+
+Lemma stabilizeNode_var fuel p s v e s1 x :
+  nkind (nd s v) = KVar e -> stabilizeNode fuel p s v = Ok (s1, x) -> soft2 s s1.
+Proof.
+  intros Hk H. unfold stabilizeNode in H. rewrite Hk in H.
+  destruct (pending (nd s v)); [destruct (_ =? _)|]; apply ok_inv in H as [-> _]; try apply soft2_refl.
+  apply soft_soft2, soft_upd; intros y; [repeat split|auto].
+Qed.
+
+Lemma setStale_soft2 s n s' :
+  setStale s n = Ok s' -> soft2 s s' /\ status s' = status s /\ handlers s' = handlers s.
+Proof.
+  intros H. pose proof H as H0. apply setStale_inv in H as [[_ ->]|[Hu H]]; [split; [apply soft2_refl|auto]|].
+  cbn zeta in H. set (s1 := upd s n (set setAt (fun _ => stabNum s))) in *.
+  assert (S1 : soft s s1).
+  { apply soft_upd; intros y; [repeat split|]. intros Hk (A & B & C). repeat split; cbn; try lia; apply A || apply B. }
+  assert (Hk : heap_ok s -> hreg_ok s -> heap_ok s').
+  { intros Hk Hr. destruct (setStale_spec s n s' Hr Hk H0) as (_ & Hk1 & _). exact Hk1. }
+  destruct H as [[_ ->]|[Hm H]].
+  - split; [|auto]. destruct (soft_soft2 _ _ S1) as [A B C D]. split; assumption.
+  - apply heapAdd_inv in H as (w & _ & ->). split; [|auto].
+    destruct (soft_soft2 _ _ S1) as [A B C D]. split.
+    + eapply same_struct_trans; [exact A|apply same_struct_only_heap, only_heap_set].
+    + exact B.
+    + intros Hs. specialize (C Hs). revert C. apply stamps_ok_ext; reflexivity.
+    + exact Hk.
+Qed.
+
+Lemma applyDeferredSets_soft2 s s' :
+  (forall v, v ∈ setRemoved s ++ setDuring s -> exists e, nkind (nd s v) = KVar e) ->
+  applyDeferredSets s = Ok s' ->
+  soft2 s s' /\ setDuring s' = [] /\ setRemoved s' = [] /\ status s' = status s /\ handlers s' = handlers s.
+Proof.
+  intros Hv H. unfold applyDeferredSets in H. apply rbind_ok in H as (s1 & H1 & [= <-]).
+  set (f := fun s v => '(s, _) <-! stabilizeNode 0 [] s v; setStale s v) in *.
+  assert (L : forall l st st', (forall v, v ∈ l -> exists e, nkind (nd st v) = KVar e) ->
+                rfold f l st = Ok st' -> soft2 st st' /\ status st' = status st /\ handlers st' = handlers st).
+  { induction l as [|v l IHl]; intros st st' Hl HR; simpl in HR.
+    - injection HR as <-. split; [apply soft2_refl|auto].
+    - apply rbind_ok in HR as (st1 & Hf & HR). unfold f in Hf.
+      apply rbind_ok in Hf as ([st0 x] & H0 & Hf).
+      destruct (Hl v ltac:(left)) as [e He].
+      pose proof (stabilizeNode_var 0 [] st v e st0 x He H0) as S0.
+      assert (B0 : status st0 = status st /\ handlers st0 = handlers st).
+      { unfold stabilizeNode in H0. rewrite He in H0.
+        destruct (pending (nd st v)); [destruct (_ =? _)|]; apply ok_inv in H0 as [-> _]; auto. }
+      destruct (setStale_soft2 st0 v st1 Hf) as (S1 & B1 & B1').
+      destruct (IHl st1 st') as (S2 & B2 & B2'); [|exact HR|].
+      + intros v' Hv'. destruct (Hl v' ltac:(right; exact Hv')) as [e' He']. exists e'.
+        destruct (ss_node _ _ (s2_struct _ _ (soft2_trans _ _ _ S0 S1)) v') as (-> & _). exact He'.
+      + split; [eapply soft2_trans; [exact S0|eapply soft2_trans; eauto]|]. destruct B0. split; congruence. }
+  destruct (L _ s s1 Hv H1) as (S & B & B').
+  split; [|cbn; auto].
+  eapply soft2_trans; [exact S|]. apply soft2_book; try reflexivity; cbn; lia.
+Qed.
+
+Lemma PInv_soft2_Inv s s' :
+  PInv s -> soft2 s s' -> status s' = 0 -> setDuring s' = [] -> setRemoved s' = [] -> handlers s' = [] ->
+  Inv s'.
+Proof.
+  intros [T Iids Ibinds Ikinds Iscopes Iscoping V1 V2 V3 [Q1 Q2 Q3 Q4 Q5] Ishape Istamps Iinval]
+         [HS (l & Hlog & Hl) Hst Hk] Hstatus Hsd Hsr Hh.
+  assert (Hheap : heap_ok s') by (apply Hk; [apply T|apply Inv_hreg; apply T]).
+  destruct HS as [Snext Sbinds Shas Sreg Sobs Sadj Sinvq Snum Smh Snode].
+  assert (Hk' : forall n, nkind (nd s' n) = nkind (nd s n)) by (intros n; apply Snode).
+  assert (Hd : forall n, decl (nd s' n) = decl (nd s n)) by (intros n; apply Snode).
+  assert (Hsc : forall n, scope (nd s' n) = scope (nd s n)) by (intros n; apply Snode).
+  assert (Hh' : forall n, height (nd s' n) = height (nd s n)) by (intros n; apply Snode).
+  assert (Hhj : forall n, hAdj (nd s' n) = hAdj (nd s n)) by (intros n; apply Snode).
+  assert (Hp : forall n, parents (nd s' n) = parents (nd s n)) by (intros n; apply Snode).
+  assert (Hc : forall n, children (nd s' n) = children (nd s n)) by (intros n; apply Snode).
+  assert (Ho : forall n, observers (nd s' n) = observers (nd s n)) by (intros n; apply Snode).
+  assert (Hv : forall n, valid (nd s' n) = valid (nd s n)) by (intros n; apply Snode).
+  assert (Hf : forall n, forceNec (nd s' n) = forceNec (nd s n)) by (intros n; apply Snode).
+  assert (Hg : forall n, inGraph (nd s' n) = inGraph (nd s n)) by (intros n; apply Snode).
+  assert (Hbd : forall b, bd s' b = bd s b) by (intros b; unfold bd; rewrite Sbinds; reflexivity).
+  assert (Hnec : forall n, isNecessary (nd s' n) = isNecessary (nd s n)) by (intros; apply isNecessary_ext; auto).
+  destruct T as [t_edges0 t_zero0 t_nec0 t_necE0 t_W0 t_par0 t_height0 t_heap0 t_count0 t_obs0 t_valid0 t_log0 t_life0 t_lifeW0 t_nodup0].
+  assert (Hnil : forall m : nid, m ∉ []) by (intros m Hm; inversion Hm).
+  constructor.
+  - apply (ids_ok_ext s s'); auto.
+  - apply (binds_wf_ext s s'); auto.
+  - apply (kinds_ok_ext s s'); auto.
+  - apply (scopes_ok_ext s s'); auto.
+  - apply (scoping_ok_ext s s'); auto.
+  - split.
+    + intros n. rewrite Hsc, Hv. auto.
+    + intros n b. rewrite Shas, Hsc, Hv, Hg. unfold inGen. rewrite Hbd. apply V2.
+    + intros n b. unfold inGen. rewrite Hbd, !Hv. apply V3.
+    + intros n. rewrite Hg, Hv. apply t_valid0.
+  - apply (edges_ok_ext s s'); auto.
+  - apply (zero_ok_ext s s'); auto.
+  - intros n. rewrite Hg, Hnec. apply t_nec0; [apply Hnil|intros []].
+  - intros n. rewrite Hg, Hp, Hd. apply t_par0, Hnil.
+  - apply (height_ok_ext s s'); auto.
+  - exact Hheap.
+  - apply (count_ok_ext s s'); auto.
+  - apply (obs_ok_ext s s'); auto.
+  - destruct Q3 as (A & B & C). split; auto.
+    + rewrite Sadj. exact A.
+    + rewrite Sinvq. exact Q2.
+    + intros n. rewrite Hf. apply Q4.
+    + intros n. rewrite Hhj. apply C.
+    + rewrite Sadj. exact B.
+  - apply (shape_ok_ext s s'); auto.
+  - apply Hst, Istamps.
+  - split.
+    + rewrite Hlog. apply (log_ok_benign s); auto. intros n Hn. apply (t_life0 n (Hnil n)), Hn.
+    + intros n. rewrite Hg, Hlog, (lastNU_benign s l _ n Hl). apply t_life0, Hnil.
+    + intros n. rewrite Hv, Hlog, (benign_inval s l _ n Hl). apply Iinval.
+Qed.
+
+Lemma stabilizeEnd_spec s e s' : PInv s -> stabilizeEnd s e = Ok s' -> Inv s'.
+Proof.
+  intros P H. unfold stabilizeEnd in H. apply rbind_ok in H as (s4 & H4 & [= <-]).
+  set (s1 := emit (EvPassEnd (classify e)) s) in *.
+  unfold runUpdateHandlers in H4.
+  set (s2 := foldl _ (s1 <| status := 2 |>) (handlers (s1 <| status := 2 |>))) in *.
+  set (s3 := s2 <| handlers := [] |> <| stabNum := stabNum (s2 <| handlers := [] |>) + 1 |>) in *.
+  assert (S1 : soft2 s s1) by (apply soft_soft2, soft_emit; exact I).
+  assert (S12 : soft2 s1 s2).
+  { eapply soft2_trans; [|apply runHandlers_soft2]. apply soft2_book; try reflexivity; lia. }
+  assert (S23 : soft2 s2 s3) by (apply soft2_book; try reflexivity; cbn; lia).
+  assert (S03 : soft2 s s3) by (eapply soft2_trans; [exact S1|eapply soft2_trans; eauto]).
+  assert (G : forall l st, setRemoved (foldl (fun s k => match obs s !! k with
+                             | Some n => emit (EvObsUpd k (valueOf s n)) s
+                             | None => emit (EvUpd k) s end) st l) = setRemoved st /\
+                          setDuring (foldl (fun s k => match obs s !! k with
+                             | Some n => emit (EvObsUpd k (valueOf s n)) s
+                             | None => emit (EvUpd k) s end) st l) = setDuring st).
+  { induction l as [|k l IHl]; intros st; [auto|]. simpl. destruct (IHl (match obs st !! k with
+                             | Some n => emit (EvObsUpd k (valueOf st n)) st
+                             | None => emit (EvUpd k) st end)) as [-> ->]. destruct (obs st !! k); auto. }
+  assert (Hlists : setRemoved s3 = setRemoved s /\ setDuring s3 = setDuring s)
+    by (exact (G (handlers (s1 <| status := 2 |>)) (s1 <| status := 2 |>))).
+  destruct Hlists as [Er Ed].
+  destruct (applyDeferredSets_soft2 s3 s4) as (S34 & Hd4 & Hr4 & Hst4 & Hh4); [|exact H4|].
+  { intros v. rewrite Er, Ed, elem_of_app. intros Hv.
+    destruct (pq_vars s (p_pq s P) v ltac:(tauto)) as [k Hk]. exists k.
+    destruct (ss_node _ _ (s2_struct _ _ S03) v) as (-> & _). exact Hk. }
+  apply (PInv_soft2_Inv s _ P).
+  - eapply soft2_trans; [exact S03|]. eapply soft2_trans; [exact S34|]. apply soft2_book; try reflexivity; lia.
+  - reflexivity.
+  - exact Hd4.
+  - exact Hr4.
+  - cbn. rewrite Hh4. reflexivity.
+Qed.
+
+Section pass2.
+  Context (Q : state -> Prop) (HQ : forall s s', same_struct s s' -> Q s -> Q s') (HB : bind_spec Q).
+
+  Lemma passLoop_spec fuel : forall p s0 s always s' e at_ always',
+    pass_ok Q p s0 s -> passLoop fuel p s always = Ok (s', e, at_, always') ->
+    rejected_err e \/ pass_ok Q p s0 s'.
+  Proof.
+    induction fuel as [|fuel IH]; intros p s0 s always s' e at_ always' K H; [discriminate|].
+    simpl in H. destruct (Heap.cnt (heap s) <=? 0); [injection H as <- <- _ _; right; exact K|].
+    destruct (Heap.removeMin (heap s)) as [[n w]|] eqn:Erm; [|discriminate].
+    set (s1 := s <| heap := w |>) in *.
+    destruct K as (P & Hp & Hn & Hq).
+    destruct (t_heap _ _ _ (p_t s P)) as [Hi Hqd].
+    destruct (removeMin_spec (heap s) n w Hi Erm) as (Hi' & Pm & Hin).
+    assert (Hnin : n ∈ Heap.ids (heap s)) by (rewrite Pm; left).
+    destruct (Hqd n Hnin) as [Hgn _].
+    assert (S1 : soft s s1).
+    { apply soft_only_heap; [apply only_heap_set|]. intros _ _. split; [exact Hi'|].
+      intros m Hm. assert (Hm' : m ∈ Heap.ids (heap s)) by (rewrite Pm; right; exact Hm).
+      destruct (Hqd m Hm') as [A B]. split; [exact A|]. cbn. rewrite Hin.
+      pose proof (inv_nodup _ (hinv_inv _ Hi)) as Hnd. rewrite Pm in Hnd.
+      apply stdpp.list.NoDup_cons in Hnd as [Hnn _].
+      rewrite decide_False by (intros ->; contradiction). exact B. }
+    assert (K1 : pass_ok Q p s0 s1).
+    { destruct (pass_ok_soft Q HQ p s s s1 ltac:(split; [exact P|split; [exact Hp|split; [reflexivity|exact Hq]]]) S1) as (A & B & C & D).
+      split; [exact A|split; [exact B|split; [congruence|exact D]]]. }
+    apply rbind_ok in H as ([[s2 e2] at2] & H2 & H).
+    destruct (recomputeChain_spec Q HQ HB fuel p s0 s1 n s2 e2 at2 K1 Hgn H2) as [Hrej|K2].
+    { destruct Hrej as [-> | ->]; injection H as <- <- _ _; left; unfold rejected_err; auto. }
+    destruct e2 as [e0|]; [injection H as <- <- _ _; right; exact K2|].
+    apply (IH p s0 s2 _ s' e at_ always' K2 H).
+  Qed.
+
+  Lemma requeue_always_soft l : forall s s',
+    rfold (fun s n => if height (nd s n) =? unset then Ok s else heapAddIfNotPresent s n) l s = Ok s' ->
+    soft s s'.
+  Proof.
+    induction l as [|n l IH]; intros s s' H; simpl in H; [injection H as <-; apply soft_refl|].
+    apply rbind_ok in H as (s1 & H1 & H). eapply soft_trans; [|apply IH, H].
+    destruct (height (nd s n) =? unset); [injection H1 as <-; apply soft_refl|apply (soft_heapAddIfNotPresent _ _ _ H1)].
+  Qed.
+
+  Lemma stabilize_spec p cancelled s s' e :
+    Inv s -> Q s -> plan_ok s p = true -> stabilize p cancelled s = Ok (s', e) ->
+    rejected_err e \/ Inv s'.
+  Proof.
+    intros HI Hq Hp H. unfold stabilize in H.
+    rewrite (q_status s (inv_quiet s HI)) in H. simpl in H.
+    set (s1 := emit EvPassStart (s <| status := 1 |>)) in *.
+    assert (P1 : PInv s1).
+    { pose proof (Inv_TInv s HI) as T.
+      destruct HI as [Iids Ibinds Ikinds Iscopes Iscoping Ivalid Iedges Izero Inec Ipar Iheight Iheap
+                      Icount Iobs Iquiet Ishape Istamps Ilife].
+      assert (S0 : same_struct s s1) by (apply same_struct_nodes; reflexivity).
+      destruct Ivalid as [V1 V2 V3 V4]. destruct Ilife as [L1 L2 L3].
+      destruct Iquiet as [q_anum0 q_invq0 q_status0 q_setDuring0 q_setRemoved0 q_handlers0 q_force0 q_hadj0 q_by0].
+      assert (Hnd : forall m, nd s1 m = nd s m) by reflexivity.
+      constructor; try assumption.
+      - apply (TInv_struct [] noE s (s <| status := 1 |>)); [apply same_struct_nodes; reflexivity|reflexivity|exact Iheap|] .
+        exact T.
+      - apply (ids_ok_ext s s1); auto; try reflexivity.
+      - apply (binds_wf_ext s s1); auto; try reflexivity.
+      - apply (kinds_ok_ext s s1); auto; try reflexivity.
+      - apply (scoping_ok_ext s s1); auto; try reflexivity.
+      - split; try reflexivity; try assumption.
+        + repeat split; assumption.
+        + intros v. cbn. rewrite q_setDuring0, q_setRemoved0. intros [Hx|Hx]; inversion Hx.
+      - destruct Ishape. split; assumption.
+      - apply (stamps_ok_ext s s1); auto; try reflexivity.
+      - intros n. cbn. rewrite elem_of_cons. rewrite <- L3. split; [auto|]. intros [?|?]; [discriminate|assumption]. }
+    admit.
+  Admitted.
+End pass2.
